@@ -17,16 +17,19 @@ CLAUSES = []
 ASSUMPTIONS = [
     "numpy.longdouble has a 64-bit mantissa (checked at import; otherwise exit 2); the long-double reference is validated at "
     "import against a scalar double loop written directly from the statement",
-    "spectra: either the library's own FAS of a record (n 3..1024, all record kinds, dt in [1e-4, 1]; its correctness is C06, it is "
-    "taken as given) or raw arrays on linear / geometric / irregular ascending grids of 1..300 positive frequencies in "
-    "[1e-3, ~1e5] Hz, with or without a leading bin at exactly 0 Hz; at least one non-zero frequency (a record of 2 samples has "
-    "none: the mean of an empty set is undefined)",
-    "amplitudes: complex, real non-negative, or real with signs (amplitude = |A|), magnitudes in [1e-12, 1e12] or exactly 0",
+    "spectra: either the library's own FAS of a record (n 3..1024 plus optional zero runs, all record kinds, dt in [1e-4, 1], "
+    "frequencies k/(N dt), up to 1023 non-zero bins; its correctness is C06, it is taken as given) or raw arrays on linear / "
+    "geometric / irregular ascending grids of 1..300 positive frequencies in [1e-3, ~1e5] Hz, with or without a leading bin at "
+    "exactly 0 Hz; at least one non-zero frequency (a record of 2 samples has none: the mean of an empty set is undefined); "
+    "DESIGN planned n >= 8, n 3..7 (one or three non-zero bins) is inside the quantifier and kept as an edge class",
+    "amplitudes: complex, real non-negative, or real with signs (amplitude = |A|); raw magnitudes are c*shape with c = 10^-6..10^6, "
+    "values below 1e-12*c are flushed to exactly 0 (isolated spikes on a zero floor are a class of their own)",
     "target frequencies are positive and finite: exactly on the grid, 1-3 ulp / 1000 eps next to a grid frequency, inside the grid, "
-    "and up to a factor 1000 below the lowest / above the highest non-zero Fourier frequency; 1..60 targets, any order, repeats allowed",
+    "and up to a factor ~1000 below the lowest / above the highest non-zero Fourier frequency; 1..60 targets (1..6 drawn one by one, "
+    "7..60 expanded from a drawn seed), any order, repeats allowed",
     "frequencies, amplitudes and targets are handed to the array-level functions as ndarrays (every caller in the repo does; the "
     "functions index with [:, newaxis]); lists / tuples are used only where the object's setters coerce them",
-    "tolerance on a smoothed amplitude S: 1e-12*S (covers summation of <= 511 non-negative terms, (nf+64)*eps <= 1.3e-13) plus the "
+    "tolerance on a smoothed amplitude S: 1e-12*S (covers summation of <= 1023 non-negative terms, (nf+64)*eps <= 2.5e-13) plus the "
     "conditioning bound of pbt/ref/ko.py (the window argument b*log10(f/fc) carries a rounding error of a few eps*(b+|x|); next to a "
     "zero of sin this is an unbounded *relative* error of a weight that is tiny in absolute terms)",
     "bandwidth clause: the spectrum is an AccSignal's smoothed spectrum (taken as given; clause `definition` checks it), target "
